@@ -91,6 +91,7 @@ impl Handler {
     }
 
     /// Check if the provided `pc` is contained in the handler range.
+    #[cfg_attr(kani, kani::ensures(|r| *r == (self.start.as_u32() <= pc && pc < self.end.as_u32())))]
     pub(crate) const fn contains(&self, pc: u32) -> bool {
         pc < self.end.as_u32() && pc >= self.start.as_u32()
     }
@@ -1226,3 +1227,7 @@ pub(crate) fn create_function_object_fast(code: Gc<CodeBlock>, context: &mut Con
         constructor
     }
 }
+
+#[cfg(kani)]
+#[path = "/verif/kani/engine/code_block.rs"]
+mod verif_kani;
